@@ -256,6 +256,13 @@ def r04d(model: Model, rr: RuleResult):
         rr.ok("ColorGlyph.create applies the advance rule whenever a viewBox (or bitmap size) is known")
     else:
         rr.bad(c, c.node, "the advance rule is not applied under `view_box is not None`", construct="ColorGlyph.create: width")
+    ig = model.func("write_font", "_init_glyph")
+    iw = [st for st in walk_body(ig) if isinstance(st, ast.Assign) and norm(st.targets[0]) == "glyph.width"]
+    if len(iw) == 1 and "color_glyph" in norm(iw[0].value) and norm(iw[0].value).endswith(".width"):
+        rr.ok("layer glyphs inherit their colour glyph's advance (the glyf flattening replaces a colour glyph by its only layer glyph)")
+    else:
+        rr.bad(ig, ig.node, f"layer glyphs get the advance {short(iw[0].value) if iw else None} instead of their colour glyph's: when the plain glyf build inlines a "
+               f"glyph's single layer, the colour glyph's advance is lost", construct=f"_init_glyph: glyph.width = {short(iw[0].value) if iw else None}")
     vb = cfg.all_defs("view_box")
     srcs = sorted(norm(d.value) for d in vb if d.value is not None)
     if "svg.view_box()" in srcs and "Rect(0, 0, *bitmap.size)" in srcs:
